@@ -170,6 +170,8 @@ public:
     {
         m_eigs->init();
         m_nconv = m_eigs->compute(SortRule::LargestAlge, maxit, tol);
+        // The eigenvectors cached by matrix_U() / matrix_V() belong to the previous computation
+        m_evecs.resize(0, 0);
 
         return m_nconv;
     }
